@@ -6,16 +6,17 @@ V = '/verif'
 needs = json.load(open(f'{V}/tools/seed_needs.json'))
 head = subprocess.check_output(['git', '-C', '/repo', 'log', '-1', '--format=%h']).decode().strip()
 rows = []
+WAVE = {'w1': ({'A': 'A', 'B': 'B'}, '/tmp/seedout', 1), 'w2': ({'A': 'C', 'B': 'D'}, '/tmp/seedout2', 2), 'w3': ({'A': 'E', 'B': 'F'}, '/tmp/seedout3', 3)}
 for d in sorted(glob.glob('/tmp/final/w?-C??-?')):
     tag, pid, v = os.path.basename(d).split('-')
-    name = f'{pid}-{v}' if tag == 'w1' else f'{pid}-{ {"A":"C","B":"D"}[v] }'
+    name = f'{pid}-{WAVE[tag][0][v]}'
     out = f'{V}/seeded/{name}'
     os.makedirs(out, exist_ok=True)
     shutil.copy(f'{d}/patch.diff', f'{out}/patch.diff')
     demo = f'zz_demo_{pid}_{v}_test.go'
     if os.path.exists(f'{d}/{demo}'):
         shutil.copy(f'{d}/{demo}', f'{out}/{demo}')
-    src_notes = f'/tmp/seedout/{pid}/NOTES.md' if tag == 'w1' else f'/tmp/seedout2/{pid}/NOTES.md'
+    src_notes = f'{WAVE[tag][1]}/{pid}/NOTES.md'
     if os.path.exists(src_notes):
         shutil.copy(src_notes, f'{out}/NOTES.md')
     log = open(f'{d}/eval.log').read()
@@ -28,7 +29,7 @@ for d in sorted(glob.glob('/tmp/final/w?-C??-?')):
             checks[cur]['rules'].append(l.split()[1].rstrip(':'))
     m0 = re.search(r'demo without change: exit (\d+).*with change: exit (\d+)', log)
     meta = {
-        'id': name, 'breaks_property': pid, 'wave': 1 if tag == 'w1' else 2,
+        'id': name, 'breaks_property': pid, 'wave': WAVE[tag][2],
         'origin': 'written by an independent sub-agent that was given only the text of the property and its own scratch worktree of flyingmutant/rapid',
         'needs_to_manifest': needs.get(f'{tag}-{pid}-{v}', ''),
         'applies_to_repo_commit': head,
